@@ -4,6 +4,7 @@ package h
 // record printed by the MC module's Export constraint) and returns a verdict.
 var Replay = map[string]func(c Node) Verdict{
 	"C01": checkC01,
+	"C05": checkC05,
 }
 
 func tableLen(c Node, name string) int {
@@ -18,5 +19,29 @@ func checkC01(c Node) Verdict {
 	want, _ := ExpectedRows(c)
 	n := tableLen(c, "t")
 	v.Nontrivial = len(want) > 0 && len(want) < n // the predicate separates the rows
+	return v
+}
+
+func stageRows(c Node, st string) ([]any, bool) {
+	for _, h := range seq(c["hist"]) {
+		h := h.(Node)
+		if h["st"] == st {
+			return FromTagged(Node{"t": "arr", "e": h["rows"]}).([]any), true
+		}
+	}
+	return nil, false
+}
+
+// C05: ORDER BY / LIMIT / OFFSET. The key-tuple sequence is fixed by the specification;
+// the order of tied rows is not, so a windowed result with ties is compared with the
+// window of the engine's own un-windowed sequence (CheckEngine).
+func checkC05(c Node) Verdict {
+	v := CheckEngine(c, EngineOpts{})
+	q := c["q"].(Node)
+	before, _ := stageRows(c, "distinct")
+	sorted, _ := stageRows(c, "order")
+	want, _ := ExpectedRows(c)
+	// non-trivial: sorting changes the sequence, or the window cuts it
+	v.Nontrivial = !Equal(any(before), any(sorted)) || (hasWindow(q) && len(want) > 0 && len(want) < len(sorted))
 	return v
 }
